@@ -371,6 +371,152 @@ theorem allowed_eq_specAllowed (l : List Cidr) (ip : List Nat) (hw : l.all Cidr.
     simp only [Bool.and_eq_true] at h
     simp only [List.any_cons, contains_eq_specContains n ip h.1 hb hl, ih h.2]
 
+/-! ### a single-address entry is that address and nothing else -/
+
+theorem hostNet_eq (h : List Nat) : hostNet h = { ip := h, mask := List.replicate h.length 255 } := rfl
+
+/-- With every mask bit set the loop of `IPNet.Contains` is equality. -/
+theorem maskedEq_full : ∀ (nn a : List Nat), bytesOk nn = true → bytesOk a = true → nn.length = a.length →
+    maskedEq nn (List.replicate nn.length 255) a = (a == nn)
+  | [], [], _, _, _ => by simp [maskedEq]
+  | x :: nn, y :: a, bn, ba, hl => by
+    obtain ⟨hx, bn'⟩ := bytesOk_cons.mp bn
+    obtain ⟨hy, ba'⟩ := bytesOk_cons.mp ba
+    have ih := maskedEq_full nn a bn' ba' (by simpa using hl)
+    simp only [List.length_cons, List.replicate_succ, maskedEq, ih, byte_and_255 x hx, byte_and_255 y hy]
+    rw [Bool.eq_iff_iff]
+    simp only [Bool.and_eq_true, beq_iff_eq, List.cons.injEq]
+    constructor
+    · rintro ⟨h1, h2⟩; exact ⟨h1.symm, h2⟩
+    · rintro ⟨h1, h2⟩; exact ⟨h1.symm, h2⟩
+  | [], _ :: _, _, _, hl => by simp at hl
+  | _ :: _, [], _, _, hl => by simp at hl
+
+theorem contains_of_full (n : Cidr) (nn ip : List Nat)
+    (hn : networkNumberAndMask n = (nn, List.replicate nn.length 255))
+    (bn : bytesOk nn = true) (bi : bytesOk ip = true) (il : ip.length = 4 ∨ ip.length = 16) :
+    contains n ip = (((unmap ip).length == 4 || (unmap ip).length == 16) && unmap ip == nn) := by
+  unfold contains
+  rw [hn, to4_getD_eq_unmap]
+  have hal := unmap_length il
+  have h1 : ((unmap ip).length == 4 || (unmap ip).length == 16) = true := by
+    rcases hal with h | h <;> simp [h]
+  by_cases hlen : (unmap ip).length = nn.length
+  · simp only [hlen, ne_eq, not_true_eq_false, if_false]
+    rw [maskedEq_full nn (unmap ip) bn (bytesOk_unmap bi) hlen.symm, ← hlen, h1, Bool.true_and]
+  · have hne : (unmap ip == nn) = false := by
+      rw [beq_eq_false_iff_ne]; intro e; exact hlen (by rw [e])
+    simp [hlen, hne]
+
+theorem nnm_hostNet (h : List Nat) (hl : h.length = 4 ∨ h.length = 16) :
+    networkNumberAndMask (hostNet h) = (unmap h, List.replicate (unmap h).length 255) := by
+  rw [hostNet_eq, nnm_eq _ hl]
+  simp only [List.length_replicate]
+  rcases hl with h4 | h16
+  · have hu : unmap h = h := by
+      unfold unmap; have : ¬ h.length = 16 := by omega
+      simp [this]
+    simp [hu, h4]
+  · have h4 : ¬ h.length = 4 := by omega
+    rcases unmap_length (Or.inr h16 : h.length = 4 ∨ h.length = 16) with hu | hu
+    · simp [h16, hu]
+    · have : ¬ (unmap h).length = 4 := by omega
+      simp [h16, hu]
+
+/-- **An entry without prefix length matches its own address only** — in either spelling of an IPv4
+address, and no address of the other family. -/
+theorem contains_hostNet (h ip : List Nat) (bh : bytesOk h = true) (hl : h.length = 4 ∨ h.length = 16)
+    (bi : bytesOk ip = true) (il : ip.length = 4 ∨ ip.length = 16) :
+    contains (hostNet h) ip = specHostMatches h ip :=
+  contains_of_full (hostNet h) (unmap h) ip (nnm_hostNet h hl) (bytesOk_unmap bh) bi il
+
+theorem parse_isNone (es : List Entry) : (parseAllowed es).isNone = es.any Entry.isBad := by
+  induction es with
+  | nil => rfl
+  | cons e es ih =>
+    cases e with
+    | skip => simpa [parseAllowed, Entry.isBad] using ih
+    | bad => simp [parseAllowed, Entry.isBad]
+    | host h => simpa [parseAllowed, Entry.isBad] using ih
+    | net c => simpa [parseAllowed, Entry.isBad] using ih
+
+/-- What `ParseAllowedIps` makes of a list is what the operator wrote: the same addresses are on it, and
+it is empty exactly when nothing was written. -/
+theorem parse_as_written : ∀ (es : List Entry) (l : List Cidr), es.all Entry.wf = true →
+    parseAllowed es = some l → ∀ ip, bytesOk ip = true → (ip.length = 4 ∨ ip.length = 16) →
+    allowed l ip = specListed (es.filter (fun e => !e.isSkip)) ip ∧
+      l.isEmpty = (es.filter (fun e => !e.isSkip)).isEmpty
+  | [], l, _, hp, ip, _, _ => by
+    simp only [parseAllowed, Option.some.injEq] at hp
+    subst hp; simp [allowed, specListed]
+  | .skip :: es, l, hw, hp, ip, hb, hl => by
+    have hw' : es.all Entry.wf = true := by simpa [Entry.wf] using hw
+    have hf : (Entry.skip :: es).filter (fun e => !e.isSkip) = es.filter (fun e => !e.isSkip) :=
+      List.filter_cons_of_neg (by simp [Entry.isSkip])
+    rw [hf]
+    exact parse_as_written es l hw' (by simpa [parseAllowed] using hp) ip hb hl
+  | .bad :: es, l, _, hp, _, _, _ => by simp [parseAllowed] at hp
+  | .host h :: es, l, hw, hp, ip, hb, hl => by
+    simp only [List.all_cons, Bool.and_eq_true, Entry.wf, Bool.or_eq_true, beq_iff_eq] at hw
+    obtain ⟨⟨bh, hhl⟩, hw'⟩ := hw
+    cases hq : parseAllowed es with
+    | none => simp [parseAllowed, hq] at hp
+    | some l' =>
+      simp only [parseAllowed, hq, Option.map_some, Option.some.injEq] at hp
+      subst hp
+      obtain ⟨ih1, _⟩ := parse_as_written es l' hw' hq ip hb hl
+      have hf : (Entry.host h :: es).filter (fun e => !e.isSkip) =
+          Entry.host h :: es.filter (fun e => !e.isSkip) := List.filter_cons_of_pos (by rfl)
+      have e1 : specEntryMatches (.host h) ip = specHostMatches h ip := rfl
+      rw [hf]
+      refine ⟨?_, by simp⟩
+      simp only [allowed, specListed, List.any_cons] at ih1 ⊢
+      rw [contains_hostNet h ip bh hhl hb hl, ih1, e1]
+  | .net c :: es, l, hw, hp, ip, hb, hl => by
+    simp only [List.all_cons, Bool.and_eq_true, Entry.wf] at hw
+    obtain ⟨hc, hw'⟩ := hw
+    cases hq : parseAllowed es with
+    | none => simp [parseAllowed, hq] at hp
+    | some l' =>
+      simp only [parseAllowed, hq, Option.map_some, Option.some.injEq] at hp
+      subst hp
+      obtain ⟨ih1, _⟩ := parse_as_written es l' hw' hq ip hb hl
+      have hf : (Entry.net c :: es).filter (fun e => !e.isSkip) =
+          Entry.net c :: es.filter (fun e => !e.isSkip) := List.filter_cons_of_pos (by rfl)
+      have e1 : specEntryMatches (.net c) ip = specContains c ip := rfl
+      rw [hf]
+      refine ⟨?_, by simp⟩
+      simp only [allowed, specListed, List.any_cons] at ih1 ⊢
+      rw [contains_eq_specContains c ip hc hb hl, ih1, e1]
+
+theorem default_trusted_as_written (ip : List Nat) (hb : bytesOk ip = true) (hl : ip.length = 4 ∨ ip.length = 16) :
+    allowed defaultTrusted ip = specListed stmtDefaultTrusted ip := by
+  rw [allowed_eq_specAllowed _ _ (by decide) hb hl]
+  have : defaultTrusted = [⟨[127,0,0,0],[255,0,0,0]⟩, ⟨[10,0,0,0],[255,0,0,0]⟩,
+      ⟨[172,16,0,0],[255,240,0,0]⟩, ⟨[192,168,0,0],[255,255,0,0]⟩] := by decide
+  rw [this]; rfl
+
+theorem default_allow_as_written (ip : List Nat) (hb : bytesOk ip = true) (hl : ip.length = 4 ∨ ip.length = 16) :
+    allowed defaultAllow ip = specListed stmtDefaultAllow ip := by
+  have hA : defaultAllow = [⟨[0,0,0,0,0,0,0,0,0,0,255,255,127,0,0,1], [255,255,255,255]⟩] := by decide
+  rw [hA]
+  simp only [allowed, specListed, stmtDefaultAllow, List.any_cons, List.any_nil, Bool.or_false, specEntryMatches]
+  rw [contains_of_full _ [127, 0, 0, 1] ip (by decide) (by decide) hb hl]
+  rfl
+
+theorem effective_as_written (es : List Entry) (l dflt : List Cidr) (sd : List Entry)
+    (hw : es.all Entry.wf = true) (hp : parseAllowed es = some l)
+    (hd : ∀ ip, bytesOk ip = true → (ip.length = 4 ∨ ip.length = 16) → allowed dflt ip = specListed sd ip)
+    (ip : List Nat) (hb : bytesOk ip = true) (hl : ip.length = 4 ∨ ip.length = 16) :
+    allowed (effective l dflt) ip = specListed (stmtList es sd) ip := by
+  obtain ⟨h1, h2⟩ := parse_as_written es l hw hp ip hb hl
+  have hf : emptyFallsBackToDefault = true := by decide
+  unfold effective stmtList
+  simp only [hf, Bool.and_true, h2]
+  cases (es.filter (fun e => !e.isSkip)).isEmpty with
+  | true => simpa using hd ip hb hl
+  | false => simpa using h1
+
 /-! ### the spec depends on the trust predicate only at the addresses of the request -/
 
 theorem Tok.bytes_ok {t : Tok} (hv : t.valid = true) (hw : t.ipwf = true) :
